@@ -120,7 +120,10 @@ pub fn run(seed: u64, worlds: usize, attempts: usize, rec: &mut Recorder) {
             ("P1", "P2", true, false),  // intermediate mismatch (invalid)
             ("P3", "P2", false, true),  // intermediate mismatch (invalid)
         ];
-        for _ in 0..attempts {
+        for att in 0..attempts {
+            if att % 40 == 7 {
+                same_pool_at_array_edge(&mut w, t22, rec);
+            }
             // move prices around with ordinary swaps and let time pass
             if w.rng.gen_bool(0.5) {
                 let pool = pick(&mut w, &["P1", "P2", "P3"]);
@@ -212,6 +215,41 @@ pub fn run(seed: u64, worlds: usize, attempts: usize, rec: &mut Recorder) {
         }
     }
     rec.flush();
+}
+
+/// Both slots of a two-hop naming the SAME pool (A->B->A and B->A->B), in the one state where the two legs need
+/// disjoint tick arrays: the current tick in the last slot of its array (the b->a leg then starts from the next
+/// array), and from the first slot.  A two-hop needs two distinct pools, whatever the arrays.
+fn same_pool_at_array_edge(w: &mut World, t22: bool, rec: &mut Recorder) {
+    for pool in ["P1", "P3"] {
+        let sp = w.pools[pool].spacing as i32;
+        let span = sp * 88;
+        let v2p = t22 || w.pools[pool].adaptive;
+        for last in [true, false] {
+            let t = w.pool_tick(pool);
+            let s0 = t.div_euclid(span) * span;
+            let target = if last { s0 + 87 * sp + w.rng.gen_range(1..sp.max(2)) } else { s0 + w.rng.gen_range(0..sp.max(1)) };
+            let cur = w.pool_sqrt_price(pool);
+            let lim = price_of(target) + 1;
+            if lim != cur {
+                let ix = w.ix_swap(pool, "U2", 1u64 << 56, 0, lim, true, lim < cur, v2p);
+                rec.exec(w, &ix, false, json!("edge"));
+            }
+            for (d1, d2) in [(true, false), (false, true)] {
+                for v2 in [true, false] {
+                    if !v2 && v2p {
+                        continue;
+                    }
+                    for exact_in in [true, false] {
+                        let amount = pick(w, &[1000u64, 100_000, 10_000_000]);
+                        let ix = w.ix_two_hop(pool, pool, "U1", amount, if exact_in { 0 } else { u64::MAX }, exact_in, d1, d2, 0, 0, v2);
+                        let mut c = w.clone();
+                        rec.exec(&mut c, &ix, false, json!({"probe": true, "twohop_same_pool": true, "last_slot": last}));
+                    }
+                }
+            }
+        }
+    }
 }
 
 #[allow(dead_code)]
